@@ -38,6 +38,8 @@ func c07alphabet() []string {
 		gw.EvC("CONNECT(c1,30,will)", gw.Connect("c1", 30, true, true)),
 		gw.EvC("CONNECT(c1,0)", gw.Connect("c1", 0, false, true)),
 		gw.EvC("DISCONNECT(0)", gw.Disconnect(0)),
+		// the optional Duration field present with value 0: a plain DISCONNECT all the same
+		gw.EvC("DISCONNECT(duration field 0)", gw.DisconnectField(0)),
 		gw.EvC("DISCONNECT(5)", gw.Disconnect(5)),
 		gw.EvC("AUTH(PLAIN u/p)", gw.AuthPlain("u", "p")),
 		gw.EvC("AUTH(PLAIN malformed)", gw.AuthRaw("PLAIN", []byte("up"))),
@@ -158,7 +160,7 @@ func c07specs() []gw.Spec {
 		cfg := gw.DefaultConfig()
 		cfg.Auth = auth
 		cfg.Predefined = predef1()
-		return gw.Spec{Name: fmt.Sprintf("auth=%t", auth), Cfg: cfg, NewMonitor: func() gw.Monitor { return &c07mon{auth: auth, alphabet: alpha} }}
+		return gw.Spec{Name: fmt.Sprintf("auth=%t", auth), Cfg: cfg, Livelock: true, NewMonitor: func() gw.Monitor { return &c07mon{auth: auth, alphabet: alpha} }}
 	}
 	return []gw.Spec{mk(false), mk(true)}
 }
